@@ -311,3 +311,33 @@ pub fn soup(rng: &mut Rng) -> String {
     }
     s
 }
+
+/// Operand for the commutativity relation: rendered so that it can stand on either
+/// side of `+` (min_prec 1) or `*` (min_prec 2) without changing the parse; drawn from
+/// the whole grammar including sexagesimal forms, unit calls and NESTED unit calls.
+pub fn gen_operand(rng: &mut Rng, min_prec: u8) -> String {
+    let k = Knobs { func: 4, sexa: 4, special: 1, nl: false };
+    let g = match rng.below(10) {
+        0..=2 => gen_sexa(rng, false),
+        3..=5 => {
+            // unit call whose argument may itself contain unit calls (in_func = false below)
+            let is_deg = rng.bool();
+            let depth = rng.range(0, 2);
+            let inner = gen_expr(rng, depth, &k, false);
+            G {
+                txt: format!("{}({})", if is_deg { "deg" } else { "rad" }, inner.txt),
+                ast: Ast::Func(is_deg, Box::new(inner.ast)),
+                prec: 3,
+            }
+        }
+        6 => {
+            let (clean, shown) = gen_num(rng);
+            G { ast: Ast::Num(clean), txt: shown, prec: 3 }
+        }
+        _ => {
+            let depth = rng.range(0, 3);
+            gen_expr(rng, depth, &k, false)
+        }
+    };
+    if g.prec < min_prec { format!("({})", g.txt) } else { g.txt }
+}
